@@ -740,14 +740,24 @@ def run_widget(c):
 # ----------------------------------------------------------------------------------------------
 
 
-def _eval(chk, key, sc, sample=None, count_ambiguous=None):
+_N = [0]
+
+
+def _eval(chk, key, sc, sample=None, count_ambiguous=None, expect_kill=False):
+    _N[0] += 1
+    if _N[0] % 64 == 0:
+        gc.freeze()  # keep the young heap (what the injected gc.collect() calls must scan) small
     try:
         viol, emits, trace = run_scenario(sc)
     except Ambiguous:
         if count_ambiguous is not None:
             count_ambiguous[0] += 1
         return
-    chk.case(key, not viol, _detail(sc, viol, emits, trace) if viol else None, True, sample)
+    # an injection that never fired (its handler was not called) repeats the injection-free case: not counted as distinct
+    fired = not expect_kill or any(ev[0] == "kill" for ev in trace)
+    chk.case(key, not viol, _detail(sc, viol, emits, trace) if viol else None, fired or bool(viol), sample)
+    if viol:
+        gc.freeze()  # whatever a defect leaked must not slow down every later gc.collect()
 
 
 def run(tier="quick", seed=0):
@@ -775,21 +785,17 @@ def run(tier="quick", seed=0):
                       "(none, user_args, weak_args, deprecated user_arg, all three) rotated over positions, disconnect by key or by "
                       "arguments by parity, 3 sender kinds, weak-argument death (del + gc.collect(), cyclic and acyclic) at every "
                       f"point (after each connect, before/after each handler's action inside the emit, between emits); variants per n: { {k: len(list(x)) for k, x in plan.items()} }"
-                      + ("; n=4: deaths only inside handlers and between emits" if quick else ""))
+                      + ("; n=4: deaths only between the emits and (variant 0) inside handlers" if quick else ""))
             c1 = Check("C14/reentrant-emit", "two emits + probes of the other (sender,name)s; every call, argument list, order and emit result judged by the reference model; distinct = (n, behaviours, variant, injection)", True, bound1)
-            k = 0
             for n in range(1, maxn + 1):
                 for v in plan[n]:
                     injs = injections(n, v)
                     if quick and n == 4:
-                        injs = [x for x in injs if x is None or x[0] in ("pre", "mid") or (x[0] == "post" and v == 1)]
+                        injs = [x for x in injs if x is None or x[0] == "mid" or (x[0] == "pre" and v == 0)]
                     for behs in itertools.product(*[behaviours(n, i) for i in range(n)]):
                         for inj in injs:
                             sc = reentrant_scenario(n, behs, v, inj)
-                            _eval(c1, (n, behs, v, repr(inj)), sc, {"n": n, "behaviours": list(behs), "variant": v, "inject": inj})
-                            k += 1
-                            if k % 4000 == 0:
-                                gc.freeze()
+                            _eval(c1, (n, behs, v, repr(inj)), sc, {"n": n, "behaviours": list(behs), "variant": v, "inject": inj}, None, inj is not None)
             out.append(c1.result())
 
             # 2. histories
@@ -801,9 +807,6 @@ def run(tier="quick", seed=0):
                 for idx in itertools.product(range(len(al)), repeat=ln):
                     for v in (0, 1):
                         _eval(c2, (idx, v), history_scenario([al[i] for i in idx], v), {"ops": [al[i][:4] for i in idx], "variant": v}, amb)
-                        k += 1
-                        if k % 4000 == 0:
-                            gc.freeze()
             r2 = c2.result()
             r2["skipped_ambiguous"] = amb[0]
             out.append(r2)
@@ -830,8 +833,6 @@ def run(tier="quick", seed=0):
                         o = al[r.randrange(len(al))]
                         ops.append(tt[o[1]] if o[0] == "c" and o[1] in tt else o)
                     _eval(c2b, it, history_scenario(ops, v), None, amb2)
-                    if it % 4000 == 0:
-                        gc.freeze()
                 r2b = c2b.result()
                 r2b["skipped_ambiguous"] = amb2[0]
                 out.append(r2b)
@@ -854,9 +855,6 @@ def run(tier="quick", seed=0):
                 if quick and len(key[2]) == 2 and (key[2][0] + key[2][1]) % 3:
                     continue
                 _eval(c5, key, sc, {"key": list(map(str, key))})
-                k += 1
-                if k % 4000 == 0:
-                    gc.freeze()
             for c in self_weak_cases():
                 try:
                     why = run_self_weak(c)
